@@ -21,13 +21,33 @@ inline MSet plus(MSet a, const MSet& b) { for (auto& p : b) a[p.first] += p.seco
 inline std::string show(const MSet& m) { std::string s; int n = 0; for (auto& p : m) for (int i = 0; i < p.second; ++i) { if (n++ > 40) return s + "..."; s += std::to_string(p.first) + ","; } return s.empty() ? "-" : s; }
 template<typename Cont> inline MSet values(const Cont& c) { MSet m; for (const auto& e : c) add(m, e.Value()); return m; }
 template<typename Cont> inline MSet pair_values(const Cont& c) { MSet m; for (auto ref : c) add(m, ref.key.Value() * 100000 + ref.value.Value()); return m; }
+inline std::string diffstr(const MSet& now, const MSet& init)
+{
+	std::string lost, extra;
+	for (auto& p : init) { auto it = now.find(p.first); int c = it == now.end() ? 0 : it->second; for (int i = c; i < p.second; ++i) lost += std::to_string(p.first) + ","; }
+	for (auto& p : now) { auto it = init.find(p.first); int c = it == init.end() ? 0 : it->second; for (int i = c; i < p.second; ++i) extra += std::to_string(p.first) + ","; }
+	return "LOST={" + lost + "} DUPLICATED/EXTRA={" + extra + "}";
+}
+// Documented limitation of maps whose key AND value are both not nothrow-anyway-assignable (HashMap.h:351-354 item 5,
+// MapUtility.h pvReplaceUnsafe): a failed removal / extraction may leave the removed pair with the replacing pair's
+// value.  pairs are encoded key*100000+value.  true = `now` differs from `init` only in that way: same keys, every
+// value is one of the initial values.
+inline bool only_values_changed(const MSet& now, const MSet& init)
+{
+	MSet kn, ki; std::set<int64_t> vi;
+	for (auto& p : now) kn[p.first / 100000] += p.second;
+	for (auto& p : init) { ki[p.first / 100000] += p.second; vi.insert(p.first % 100000); }
+	if (kn != ki) return false;
+	for (auto& p : now) if (!vi.count(p.first % 100000)) return false;
+	return true;
+}
 inline bool dup_keys(const MSet& m) { std::set<int64_t> ks; for (auto& p : m) { if (p.second > 1) return true; if (!ks.insert(keyof(p.first)).second) return true; } return false; }
 
 struct Report
 {
-	long points = 0; std::string bad;
+	long points = 0; long documented = 0; std::string bad;
 	void fail(const std::string& s) { if (bad.size() < 600) bad += (bad.empty() ? "" : " | ") + s; }
-	std::string str() const { return (bad.empty() ? "OK points=" : "BAD points=") + std::to_string(points) + (bad.empty() ? "" : " " + bad); }
+	std::string str() const { return (bad.empty() ? "OK points=" : "BAD points=") + std::to_string(points) + " documented=" + std::to_string(documented) + (bad.empty() ? "" : " " + bad); }
 };
 
 struct Counters { uint64_t copy, copy_assign; };
@@ -64,6 +84,6 @@ inline void enumerate_all(Report& rep, const char* what, Body body, bool with_fu
 }
 
 #define C10_CATCH_INJECTED(okvar) \
-	catch (const kit::InjectedAlloc&) { okvar = false; } catch (const kit::InjectedCopy&) { okvar = false; } catch (const kit::InjectedFunc&) { okvar = false; }
+	catch (const std::bad_alloc&) { okvar = false; } /* momo rethrows bad_alloc by value (HashSet::pvAddGrow): the dynamic type is lost */ catch (const kit::InjectedCopy&) { okvar = false; } catch (const kit::InjectedFunc&) { okvar = false; }
 
 } // namespace c10
